@@ -237,15 +237,17 @@ class MLMCPath(MCPath):
         path_coarse = path[PT.CP, ...]
         jump_path_fine = jump_path[PT.FP, ...]
         jump_path_coarse = jump_path[PT.CP, ...]
+        # the payoff of each path is evaluated right after its underlying: a path-dependent payoff (barrier) keeps the
+        # state of the last path processed by `underlying_value`
         payoff_underlying_from_fp = product.underlying_value(
             times, path_fine, jump_path_fine
         )
+        payoff_from_fp = product(payoff_underlying_from_fp)
         payoff_underlying_from_cp = product.underlying_value(
             times, path_coarse, jump_path_coarse
         )
-        self.payoff = np.array(
-            [product(payoff_underlying_from_fp), product(payoff_underlying_from_cp)]
-        )
+        payoff_from_cp = product(payoff_underlying_from_cp)
+        self.payoff = np.array([payoff_from_fp, payoff_from_cp])
         self.process_spot_level_l(path_fine, path_coarse)
         self.payoff_control_variates = control_variates.process_mlmc(
             times,
